@@ -477,10 +477,13 @@ impl OutputFormat for IcyDraw {
                                                             (ch, fg, bg, font_page)
                                                         };
 
+                                                        let Some(ch) = char::from_u32(ch) else {
+                                                            return Err(anyhow::anyhow!("invalid character code {ch:#x} in layer data"));
+                                                        };
                                                         layer.set_char(
                                                             (x, y),
                                                             crate::AttributedChar {
-                                                                ch: unsafe { char::from_u32_unchecked(ch) },
+                                                                ch,
                                                                 attribute: crate::TextAttribute {
                                                                     foreground_color: fg,
                                                                     background_color: bg,
@@ -643,10 +646,13 @@ impl OutputFormat for IcyDraw {
                                                     (ch, fg, bg, font_page)
                                                 };
 
+                                                let Some(ch) = char::from_u32(ch) else {
+                                                    return Err(anyhow::anyhow!("invalid character code {ch:#x} in layer data"));
+                                                };
                                                 layer.set_char(
                                                     (x, y),
                                                     crate::AttributedChar {
-                                                        ch: unsafe { char::from_u32_unchecked(ch) },
+                                                        ch,
                                                         attribute: crate::TextAttribute {
                                                             foreground_color: fg,
                                                             background_color: bg,
